@@ -371,7 +371,10 @@ func (e *ControllerEngine) StartWatches(name string, ws ...Watch) error {
 	// It's possible that we didn't explicitly stop a watch, but its backing
 	// informer was removed. This implicitly stops the watch by deleting its
 	// backing listener. If a watch exists but doesn't have an active informer,
-	// we want to restart the watch (and, implicitly, the informer).
+	// we want to restart the watch (and, implicitly, the informer). A read of
+	// the kind through the cache may have started a new informer since. It's
+	// active, but it doesn't have the watch's listener - so we also ask the
+	// watch's source whether it lost its informer.
 	//
 	// There's a potential race here. Another Goroutine could remove an informer
 	// between where we build the map and where we read it to check whether an
@@ -395,7 +398,7 @@ func (e *ControllerEngine) StartWatches(name string, ws ...Watch) error {
 		wid := WatchID{Type: w.wt, GVK: gvks[i]}
 		// We've already created this watch and the informer backing it is still
 		// running. We don't need to create a new watch.
-		if _, watchExists := c.sources[wid]; watchExists && activeInformer[wid.GVK] {
+		if src, watchExists := c.sources[wid]; watchExists && activeInformer[wid.GVK] && !src.Lost() {
 			e.log.Debug("Watch exists for GVK, not starting a new one", "controller", name, "watch-type", wid.Type, "watched-gvk", wid.GVK)
 			continue
 		}
@@ -441,7 +444,7 @@ func (e *ControllerEngine) StartWatches(name string, ws ...Watch) error {
 		// running. We don't need to create a new watch. We don't debug log this
 		// one - we'll have logged it above unless the watch was added between
 		// releasing the read lock and taking the write lock.
-		if _, watchExists := c.sources[wid]; watchExists && activeInformer[wid.GVK] {
+		if src, watchExists := c.sources[wid]; watchExists && activeInformer[wid.GVK] && !src.Lost() {
 			continue
 		}
 
